@@ -177,6 +177,14 @@ func backSlice(v ssa.Value, pred func(x ssa.Value) bool, through func(key string
 			return storesInto(y, d)
 		case *ssa.MakeMap, *ssa.MakeSlice:
 			return storesInto(y, d)
+		case *ssa.MakeClosure:
+			// a bound method value / closure carries what it was bound to
+			for _, b := range y.Bindings {
+				if rec(b, d+1) {
+					return true
+				}
+			}
+			return false
 		case *ssa.FreeVar:
 			if b := FreeVarBinding(y); b != nil {
 				return rec(b, d+1)
